@@ -34,6 +34,41 @@ def run(ctx):
     # (no instance on the pinned tree: the rule is vacuous until a Write adaptor appears in the hub; mutant N6-* is its positive control)
     ctx.attempt(write_adaptors_forward_flush, ctx, F, 'C10.R2', ['bin/copia/serve.rs', 'bin/copia/wire.rs'])
     ctx.attempt(r6, ctx, F, hub)
+    ctx.rule('C10.R7', 'the hasher whose digest is compared with the declared hash holds the bytes of THIS Put only: made for it, or reset before its first update', floor=1)
+    ctx.attempt(hasher_fresh_per_put, ctx, F)
+
+
+def hasher_fresh_per_put(ctx, F):
+    """`Hasher::finalize` does not reset: a hasher that outlives one Put (a thread-local scratch, a field of the session) and is not
+    reset on EVERY way into the next one still holds the bytes of a Put that was refused - the digest that is compared with the
+    declared hash is then blake3(earlier ++ these) and unverified bytes are committed.  Decided per body of the put handler that
+    finalizes: the hasher is a `Hasher::new()` of that body, or a `reset()` of the same hasher dominates every `update` and the
+    `finalize`; a hasher that arrives from outside and is never reset on the way is a violation."""
+    n = 0
+    for b in F.nested('serve::handle_put'):
+        fl = flow_of(b)
+        cfg = fl.cfg
+        key = lambda op: frozenset((o.kind, str(o.key), o.bb, tuple(o.path)) for o in fl.origins(op) if o.kind != 'comb')
+        fins = [(cb, ct) for cb, ct in fl.calls_to('blake3::Hasher::finalize') if cb in cfg.reachable()]
+        for cb, ct in fins:
+            n += 1
+            hk = key(ct['args'][0])
+            os_ = [o for o in fl.origins(ct['args'][0]) if o.kind != 'comb']
+            where = b.path.split('::{')[0].split('::')[-1]
+            if os_ and all(o.kind == 'call' and str(o.key) in ('blake3::Hasher::new', 'blake3::Hasher::new_keyed', 'blake3::Hasher::default') for o in os_):
+                ctx.ok('C10.R7', '%s:hasher-made-for-this-put' % where, 'the hasher is created in the handler', term_loc(b, cb))
+                continue
+            if not os_ or not all(o.kind in ('param', 'upvar') for o in os_):
+                ctx.undecided('C10.R7', '%s finalizes a hasher whose origin is not read (%s)' % (where, sorted({o.kind for o in os_})))
+                continue
+            resets = [rb for rb, rt in fl.calls_to('blake3::Hasher::reset') if key(rt['args'][0]) == hk and rb in cfg.reachable()]
+            users = [ub for ub, ut in fl.calls_to('blake3::Hasher::update') if key(ut['args'][0]) == hk and ub in cfg.reachable()] + [cb]
+            fresh = bool(resets) and all(any(cfg.dominates(rb, ub) for rb in resets) for ub in users)
+            ctx.check(fresh, 'C10.R7', '%s:hasher-outlives-the-put' % where, 'a reset() of the long-lived hasher dominates every update and the finalize of this Put',
+                      '%s hashes the upload with a hasher that outlives the request (it arrives from outside: a thread-local / session scratch) and is not reset on every way to its first update: '
+                      'after a refused Put it still holds the refused bytes, the next digest is blake3(refused ++ new) and unverified bytes are committed' % where, term_loc(b, cb))
+    if not n:
+        ctx.undecided('C10.R7', 'no blake3::Hasher::finalize found under serve::handle_put: how the upload is hashed is not read')
 
 
 def r1(ctx, F, hub):
